@@ -2,7 +2,7 @@
     This file only pins statements: every theorem restates a lemma of proofs/ verbatim and is closed by it. *)
 From CacheD Require Import Base Sketch Model Window Micro.
 From CacheD.proofs Require Import Defs ApiProofs HistoryProofs StatsProofs.
-From CacheD.proofs Require Import MicroProofs MicroLedger.
+From CacheD.proofs Require Import MicroProofs MicroLedger MicroCharged.
 
 (** (C05, C01 at every micro state of every micro schedule, no condition on the events): as long as the worker has
    not panicked, the total weight is exactly the sum of the charges, the charged ids are pairwise distinct, every charge
@@ -29,6 +29,32 @@ Theorem C05_micro_ids_fresh_all :
   (forall id wk, alookup id (weights s) = Some wk -> id < next_id s).
 Proof. exact micro_ids_fresh_all. Qed.
 Print Assumptions C05_micro_ids_fresh_all.
+
+(** (C05, "no weight stays charged for a key that is gone", at every state of every micro schedule, no condition
+   on the events): before shutdown() is called and while the worker has not panicked, every charged id is the id of the
+   stored entry of its own key - except the single id the worker has in flight at that instant (a put admitted and
+   charged but not yet inserted, a Delete whose entry is removed but whose charge is not yet released), and then nobody
+   else occupies that key *)
+Theorem C05_micro_charged_is_stored_all :
+  forall cfg evs id wk,
+  let ms := mrun cfg evs in
+  shut (mbase ms) = false -> worker (mbase ms) <> Dead ->
+  alookup id (weights (mbase ms)) = Some wk ->
+  (exists e, alookup (w_key wk) (store (mbase ms)) = Some e /\ e_id e = id) \/
+  (f_id (fl_of ms) = Some id /\ alookup (w_key wk) (store (mbase ms)) = None).
+Proof. exact micro_charged_is_stored_all. Qed.
+Print Assumptions C05_micro_charged_is_stored_all.
+
+(** (corollary, between commands): whenever the worker has nothing in flight, every charged id is the id of the
+   stored entry of its key *)
+Theorem C05_micro_charged_is_stored_quiet :
+  forall cfg evs id wk,
+  let ms := mrun cfg evs in
+  shut (mbase ms) = false -> worker (mbase ms) <> Dead -> wdel ms = None ->
+  alookup id (weights (mbase ms)) = Some wk ->
+  exists e, alookup (w_key wk) (store (mbase ms)) = Some e /\ e_id e = id.
+Proof. exact micro_charged_is_stored_quiet. Qed.
+Print Assumptions C05_micro_charged_is_stored_quiet.
 
 (** the micro steps of one call, executed back to back by a caller that is not inside another call, are the
    atomic call of Model.v: same state, same observation, and the caller is out of every window again *)
